@@ -27,6 +27,8 @@ pub struct Cell {
     pub def_env_um: i64,
 }
 
+static TWO_STEP: std::sync::atomic::AtomicBool = std::sync::atomic::AtomicBool::new(false);
+
 /// irb2400 with small cubes on the link origins, an axial tool, a base block and one obstacle box
 pub fn cell(obstacle: Option<WBox>, safety_um: i64) -> Cell { cell_with(obstacle, safety_um, 6.0, false) }
 
@@ -84,7 +86,14 @@ pub fn cell_full(obstacle: Option<WBox>, safety_um: i64, j6_limit: f64, wide: bo
         }
     }
     let safety = SafetyDistances { to_environment: safety_um as f32 / 1e6, to_robot_default: 0.0, special_distances: special, mode: CheckMode::FirstCollisionOnly };
-    let kws = KinematicsWithShape::with_safety(p, Constraints::new(from, to, BY_PREV), joint_meshes, base_mesh, base_na, tool_mesh, tool_iso.to_na(), env, safety);
+    // (every second cell of a class obtained its joint ranges in two steps: constructed with ranges that are 0.4 rad more generous
+    //  on either side, then narrowed with update_range)
+    let constraints = if TWO_STEP.load(std::sync::atomic::Ordering::Relaxed) {
+        let mut c = Constraints::new(std::array::from_fn(|i| from[i] - 0.4), std::array::from_fn(|i| to[i] + 0.4), BY_PREV);
+        c.update_range(from, to);
+        c
+    } else { Constraints::new(from, to, BY_PREV) };
+    let kws = KinematicsWithShape::with_safety(p, constraints, joint_meshes, base_mesh, base_na, tool_mesh, tool_iso.to_na(), env, safety);
     Cell { kws, reference, from, to, home, table, def_env_um: safety_um }
 }
 
@@ -279,7 +288,9 @@ pub fn record(output: &str) {
             obstacle = branch_blocker(&land, &steps, &park);
             if obstacle.is_none() { continue; }
         }
+        TWO_STEP.store((nth + k % 14) % 2 == 1, std::sync::atomic::Ordering::Relaxed);
         let cell = cell_full(obstacle, if v % 4 == 3 || obstacle_class == "fragile" { 10_000 } else { 0 }, j6_limit, obstacle_class == "branch-blocking", if obstacle_class == "fragile" { 150_000 } else { 0 }, narrow_limits);
+        TWO_STEP.store(false, std::sync::atomic::Ordering::Relaxed);
         // every third cell starts with joint 6 beyond half a turn (189 degrees, well inside its +-344 degree range)
         let mut start = cell.home;
         if (nth + k) % 3 == 2 && j6_limit > 4.0 && obstacle_class != "start-collides" { start[5] = 3.3; }
@@ -292,7 +303,17 @@ pub fn record(output: &str) {
         let mut outcomes: Vec<bool> = Vec::new();
         let mut any_rrt = false;
         case_no += 1;
-        let (pools, reps) = if obstacle_class == "branch-blocking" { (pools_for(case_no, 4), 2) } else { (pools_for(case_no, if thorough() { 4 } else { 2 }), reps) };
+        // every second cell with an obstacle: the same stroke was planned a moment ago, on this thread, in the cell as it
+        // was before the obstacle came (same robot, same ranges, same distances) - what was free then need not be now
+        if obstacle.is_some() && v % 2 == 0 && obstacle_class != "start-collides" {
+            let before = cell_full(None, if v % 4 == 3 || obstacle_class == "fragile" { 10_000 } else { 0 }, j6_limit, obstacle_class == "branch-blocking", 0, narrow_limits);
+            let planner = Cartesian { robot: &before.kws, check_step_m: 0.02, check_step_rad: 3.0f64.to_radians(), max_transition_cost: max_cost, transition_coefficients: coeffs,
+                linear_recursion_depth: 8, rrt: RRTPlanner { step_size_joint_space: 3.0f64.to_radians(), max_try: 1000, debug: false }, include_linear_interpolation: include, debug: false };
+            let _ = guarded(|| planner.plan(&start, &land, steps.clone(), &park));
+            let _ = verif_hooks::drain();
+        }
+        // (the class whose success needs a second strategy is also asked from a pool with a single worker)
+        let (pools, reps) = if obstacle_class == "branch-blocking" { let mut p = pools_for(case_no, 4); if !p.contains(&1) { p.insert(0, 1); } (p, 2) } else { (pools_for(case_no, if thorough() { 4 } else { 2 }), reps) };
         for &pool in &pools {
             for rep in 0..reps {
                 let planner = Cartesian {
